@@ -8,6 +8,7 @@ mod port;
 mod robs_deque;
 mod robs_list;
 mod robs_vec;
+mod io;
 mod rng;
 mod robs_map;
 mod robs_set;
@@ -130,6 +131,7 @@ fn main() {
         "robs_map" => robs_map::run(seed, count, &extra, &mut out),
         "robs_set" => robs_set::run(seed, count, &extra, &mut out),
         "broadcast" => broadcast::run(seed, count, &extra, &mut out),
+        "io" => io::run(seed, count, &extra, &mut out),
         _ => {
             eprintln!("unknown component {comp}");
             std::process::exit(2);
